@@ -95,6 +95,19 @@ def contract (steps : List StepObs) : Option String :=
     if ContractB (l.map (· != 'n')) then none
     else some s!"subscriber {s} saw {String.ofList l}"
 
+/-- the observer attached with `tap(next, error, complete)` is a subscriber too: within ONE subscription of the
+    tapped observable its callbacks see `next*` then at most one terminal (the driver applies this only to cases
+    in which every tap is subscribed exactly once) -/
+def contractTap (steps : List StepObs) : Option String :=
+  let recs := steps.flatMap (·.recs)
+  let tags := (recs.filterMap fun r => match r with | .tap k _ _ => some k | _ => none).eraseDups
+  tags.findSome? fun k =>
+    let l := recs.filterMap fun r => match r with
+      | .tap k' c _ => if k' == k then some c else none
+      | _ => none
+    if ContractB (l.map (· != 'n')) then none
+    else some s!"tap observer {k} saw {String.ofList l}"
+
 /-! ### C05: nothing after unsubscribe returned; is_subscribed is true on a prefix that ends at the
     first terminal or unsubscribe -/
 
